@@ -338,6 +338,15 @@ impl Prop for OutstationScript {
             6 => frag_strategy().prop_map(Step::Fragment),
             1 => proptest::collection::vec(any::<u8>(), 0..40).prop_map(Step::RawSegment),
             1 => proptest::collection::vec(any::<u8>(), 1..40).prop_map(Step::RawBytes),
+            // the beginning of a perfectly valid frame and nothing more (the peer went away in the middle of it): start
+            // octets only, part of the header, the whole header, part of the body
+            1 => prop_oneof![Just(1usize), Just(2), Just(5), Just(9), Just(10), Just(11), Just(17)].prop_map(|k| {
+                let f = Fragment::request(3, func::READ, ra::h_all(60, 1)).encode();
+                let mut payload = vec![0xC1];
+                payload.extend(f);
+                let frame = rl::encode(0xC4, OUTSTATION_ADDR, MASTER_ADDR, &payload);
+                Step::RawBytes(frame[..k.min(frame.len() - 1)].to_vec())
+            }),
             5 => (0u8..12).prop_map(Step::Request),
             3 => (any::<u8>(), any::<u8>()).prop_map(|(a, b)| Step::Update(a, b)),
             2 => (any::<bool>(), any::<u8>(), any::<bool>()).prop_map(|(r, s, u)| Step::Confirm(r, s, u)),
